@@ -66,8 +66,8 @@ Print Assumptions c16_sites_covered.
 (* no goroutine, no select; randomness / wall clock / environment only inside the registered
    simulation helpers, which nothing else in the non-test code refers to (reference graph of the
    translator); no process-local mutable state and no dependence on the zone of the process
-   outside the registered sites (the two theorems below say what that means per kind); a row of an
-   unknown kind fails *)
+   outside the registered sites, no alias of a process-wide Dec / Int / Coin value handed to a decoder
+   (the three theorems below say what that means per kind); a row of an unknown kind fails *)
 Theorem c16_no_ambient : forall r, In r ambient_table -> ambient_row_ok r = true.
 Proof. intros r Hr. pose proof ambient_table_ok as H. rewrite forallb_forall in H. exact (H r Hr). Qed.
 Print Assumptions c16_no_ambient.
@@ -99,6 +99,24 @@ Proof.
   rewrite Hk in H. exact H.
 Qed.
 Print Assumptions c16_no_local_time.
+
+(* "regardless of process", the part no write shows: a package-level variable (or a field of a state-machine
+   struct) of a type around a *big.Int - sdk.Dec / Int / Uint / Coin(s) / DecCoin(s) / big.Int, structs and slices
+   of them - shares its big.Int with every COPY of its value.  Every place where such a copy (followed by
+   the translator through locals, fields, literals, parameters and results of all functions of the
+   repository) is handed by address to a function that may decode into it (codec / json Unmarshal,
+   GetParamSet, Scan ...: everything outside the repository not known to only read), or is the receiver
+   of a pointer-receiver method (generated proto Unmarshal ...), of Dec / Int Unmarshal* / Set* / *Mut or of a
+   mutating math/big method, is a registered site read and found harmless; nothing registered is
+   stale, and the analysis ranged over at least one variable *)
+Theorem c16_no_default_aliasing :
+  (forall r, In r ambient_table -> is_alias_kind (am_kind r) = true -> alias_row_ok r = true) /\
+  alias_registry_live ambient_table = true.
+Proof.
+  pose proof alias_table_ok as H. apply andb_true_iff in H. destruct H as [H1 H2]. split; [|exact H2].
+  intros r Hr Hk. rewrite forallb_forall in H1. specialize (H1 r Hr). rewrite Hk in H1. exact H1.
+Qed.
+Print Assumptions c16_no_default_aliasing.
 
 (* ---- non-vacuity ---- *)
 (* two enumeration orders of the same three fills (a buy and two sells at price 2.5) give the same
@@ -161,6 +179,29 @@ Example c16_rejects_local_time :
   ambient_row_ok (mkAmbient "x/locker/keeper/locker.go" "locker.F" "localtime" "time.Local" []) = false.
 Proof. vm_compute. split; reflexivity. Qed.
 
+(* aliasing of a process-wide default: the rows the translator emits when UnmarshalGenericLiquidityParams
+   pre-seeds a field with types.DefaultSwapFeeBurnRate before cdc.Unmarshal(value, &params) (every decode
+   then overwrites the default of the process), when a copy of a default is decoded into directly, and when
+   the params subspace decodes into types.DefaultParams(); a registered site is accepted only with its exact
+   text in its own function; the informational source rows are accepted *)
+Example c16_rejects_default_aliasing :
+  ambient_row_ok (mkAmbient "x/liquidity/types/request.go" "liquidity/types.UnmarshalGenericLiquidityParams" "procstate-alias"
+     "passed by address to github.com/cosmos/cosmos-sdk/codec.BinaryCodec.Unmarshal: an alias of package variable x/liquidity/types.DefaultSwapFeeBurnRate"
+     ["liquidity.GetGenericLiquidityParams"; "liquidity.GetGenericParams"]) = false /\
+  ambient_row_ok (mkAmbient "x/liquidity/keeper/pool.go" "liquidity.F" "procstate-alias"
+     "in-place cosmossdk.io/math.LegacyDec.Unmarshal on an alias of package variable x/liquidity/types.DefaultSwapFeeRate" []) = false /\
+  ambient_row_ok (mkAmbient "x/asset/keeper/params.go" "asset.GetParams" "procstate-alias"
+     "passed by address to github.com/cosmos/cosmos-sdk/x/params/types.Subspace.GetParamSet: an alias of package variable x/asset/types.DefaultAssetRegistrationFee" []) = false /\
+  ambient_row_ok (mkAmbient "x/asset/keeper/params.go" "asset.GetParams" "procstate-alias"
+     "passed by address to github.com/cosmos/cosmos-sdk/x/params/types.Subspace.SetParamSet: an alias of package variable x/asset/types.DefaultAssetRegistrationFee" []) = false /\
+  ambient_row_ok (mkAmbient "x/asset/keeper/params.go" "asset.SetParams" "procstate-alias"
+     "passed by address to github.com/cosmos/cosmos-sdk/x/params/types.Subspace.SetParamSet: an alias of package variable x/asset/types.DefaultAssetRegistrationFee" ["asset.InitGenesis"]) = true /\
+  (forall reg, alias_row_ok_with reg (mkAmbient "x/liquidity/types/generic_params.go" "package variable x/liquidity/types.DefaultSwapFeeBurnRate"
+     "procstate-alias-src" "cosmossdk.io/math.LegacyDec" []) = true) /\
+  alias_row_ok_with [] (mkAmbient "x/asset/keeper/params.go" "asset.SetParams" "procstate-alias"
+     "passed by address to github.com/cosmos/cosmos-sdk/x/params/types.Subspace.SetParamSet: an alias of package variable x/asset/types.DefaultAssetRegistrationFee" []) = false.
+Proof. vm_compute. repeat split; reflexivity. Qed.
+
 (* registration "set once at wiring time" holds only while every transitive caller is wiring: a hooks
    field assigned by SetHooks is accepted when only app.New reaches it, and rejected as soon as a message
    handler does; the registered test helper types.ParseTime is rejected once state-machine code calls it *)
@@ -181,5 +222,8 @@ Example c16_table_has_rows_of_each_kind :
   existsb (fun r => String.eqb (am_kind r) "procstate-ext") ambient_table = true /\
   existsb (fun r => String.eqb (am_kind r) "procstate-local") ambient_table = true /\
   existsb (fun r => String.eqb (am_kind r) "localtime") ambient_table = true /\
-  existsb (fun r => String.eqb (am_kind r) "random") ambient_table = true.
+  existsb (fun r => String.eqb (am_kind r) "random") ambient_table = true /\
+  existsb (fun r => String.eqb (am_kind r) "procstate-alias") ambient_table = true /\
+  existsb (fun r => String.eqb (am_kind r) "procstate-alias-src" && String.eqb (am_func r) "package variable x/liquidity/types.DefaultSwapFeeBurnRate")
+    ambient_table = true.
 Proof. vm_compute. repeat split; reflexivity. Qed.
